@@ -9,5 +9,5 @@ Extraction "model.ml" len_ser len_de prim_enc prim_dec tag_enc tag_dec framed_de
   dec enc dec_cmd enc_cmd dec_plain enc_struct parse_enum run_dec run_enc run_enum
   read_frame read_frames read_frame_chunks flat
   run_seq_named run_upload_named
-  run_history error_table
+  run_history feig_history cfg_ok error_table
   run_canon canon_cmd canon_struct.
